@@ -38,6 +38,7 @@ type TxSpec struct {
 	Gas    int64     `json:"gas"`
 	Fee    int64     `json:"fee"`
 	Label  string    `json:"label"`
+	Tamper string    `json:"tamper,omitempty"` // badsig | seq+1 | seq-1 | wrongchain | nosig | tinygas
 }
 
 // History is a list of blocks.
@@ -50,10 +51,14 @@ type History struct {
 func Genesis(c *chainsim.Chain) gnoland.GnoGenesisState {
 	st := c.DefaultGenState(Users...)
 	dep := c.Acc("alice")
+	gas := int64(500_000_000)
+	if c.Opts.MaxGas < gas {
+		gas = c.Opts.MaxGas
+	}
 	st.Txs = append(st.Txs,
-		chainsim.GenesisAddPkgTx(dep, LibPath, map[string]string{"lib.gno": LibSrc}),
-		chainsim.GenesisAddPkgTx(dep, StorePath, map[string]string{"store.gno": StoreSrc}),
-		chainsim.GenesisAddPkgTx(dep, PeerPath, map[string]string{"peer.gno": PeerSrc}),
+		chainsim.GenesisAddPkgTxGas(dep, LibPath, map[string]string{"lib.gno": LibSrc}, gas),
+		chainsim.GenesisAddPkgTxGas(dep, StorePath, map[string]string{"store.gno": StoreSrc}, gas),
+		chainsim.GenesisAddPkgTxGas(dep, PeerPath, map[string]string{"peer.gno": PeerSrc}, gas),
 	)
 	// fund the peer realm so Pay can succeed
 	st.Balances = append(st.Balances, gnoland.Balance{Address: RealmAddr(PeerPath), Amount: std.Coins{{Denom: "ugnot", Amount: 5_000_000_000}}})
@@ -167,8 +172,66 @@ func Clear(cur realm) int { V = nil; S = map[string]int{}; return 0 }
 	return path, body
 }
 
+// Profile tunes the generator.
+type Profile struct {
+	// FailBoost multiplies the share of failing transactions (panics, message
+	// errors, out-of-gas cut points, deposit failures, bad signatures).
+	FailBoost bool
+}
+
 // Gen produces a random history of nBlocks blocks.
 func Gen(r *rand.Rand, seed uint64, nBlocks, maxTxs int) *History {
+	return GenP(r, seed, nBlocks, maxTxs, Profile{})
+}
+
+// failTx returns a transaction designed to fail at a chosen point.
+func failTx(r *rand.Rand) TxSpec {
+	tx := TxSpec{Signer: pick(r, Users), Gas: 150_000_000, Fee: 1_000_000}
+	pre := func() []MsgSpec {
+		var ms []MsgSpec
+		for j := r.IntN(3); j > 0; j-- {
+			if r.IntN(2) == 0 {
+				ms = append(ms, storeOp(r))
+			} else {
+				ms = append(ms, peerOp(r))
+			}
+		}
+		return ms
+	}
+	switch r.IntN(8) {
+	case 0: // Gno panic in own realm after writes, at message j
+		tx.Msgs = append(pre(), MsgSpec{Kind: "call", Pkg: StorePath, Func: "Fail", Args: []string{pick(r, tags)}})
+		tx.Label = "fail:panic-own"
+	case 1: // Gno panic in a foreign realm reached by a cross call, after writes in both
+		tx.Msgs = append(pre(), MsgSpec{Kind: "call", Pkg: PeerPath, Func: "RelayFail", Args: []string{pick(r, tags)}})
+		tx.Label = "fail:panic-foreign"
+	case 2: // message error (bank) after successful VM messages
+		tx.Msgs = append(pre(), MsgSpec{Kind: "send", To: pick(r, Users), Amount: 99_000_000_000_000})
+		tx.Label = "fail:msg-error"
+	case 3: // out of tx gas at a cut point inside message execution
+		tx.Msgs = append(pre(), MsgSpec{Kind: "call", Pkg: StorePath, Func: "BigGrow", Args: []string{itoa(20 + r.IntN(30))}},
+			MsgSpec{Kind: "call", Pkg: StorePath, Func: "Burn", Args: []string{itoa(500 + r.IntN(20000))}})
+		tx.Gas = int64(1_200_000 + r.IntN(12_000_000))
+		tx.Label = "fail:oog-cut"
+	case 4: // storage deposit limit too small for the growth
+		tx.Msgs = append(pre(), MsgSpec{Kind: "call", Pkg: StorePath, Func: "BigGrow", Args: []string{itoa(25 + r.IntN(20))}, MaxDep: int64(1 + r.IntN(2000))})
+		tx.Label = "fail:deposit"
+	case 5: // MsgRun script that writes then panics
+		tx.Msgs = []MsgSpec{{Kind: "run", Body: "package main\n\nimport (\n\t\"gno.land/r/verif/store\"\n\t\"gno.land/r/verif/peer\"\n)\n\nfunc main(cur realm) {\n\tstore.Push(cross(cur), \"run\")\n\tpeer.Relay(cross(cur), \"run\")\n\tstore.BigGrow(cross(cur), 7)\n\tpanic(\"script failure\")\n}\n"}}
+		tx.Label = "fail:run-panic"
+	case 6: // add-package whose init panics after touching another realm
+		idx := 1000 + r.IntN(1_000_000)
+		tx.Msgs = []MsgSpec{{Kind: "addpkg", Pkg: fmt.Sprintf("gno.land/r/verif/bad%d", idx), Body: fmt.Sprintf("package bad%d\n\nimport \"gno.land/r/verif/store\"\n\nvar X = []int{1, 2, 3}\n\nfunc init() {\n\tX = append(X, len(store.Dump()))\n\tpanic(\"init failure\")\n}\n", idx)}}
+		tx.Label = "fail:addpkg-init-panic"
+	default: // unknown function (message error from the keeper) after writes
+		tx.Msgs = append(pre(), MsgSpec{Kind: "call", Pkg: StorePath, Func: "NoSuchFunc"})
+		tx.Label = "fail:no-func"
+	}
+	return tx
+}
+
+// GenP produces a random history of nBlocks blocks under a profile.
+func GenP(r *rand.Rand, seed uint64, nBlocks, maxTxs int, prof Profile) *History {
 	h := &History{Seed: seed}
 	deployed := []int{}
 	nextPkg := 0
@@ -176,6 +239,10 @@ func Gen(r *rand.Rand, seed uint64, nBlocks, maxTxs int) *History {
 		var blk []TxSpec
 		ntx := r.IntN(maxTxs + 1)
 		for i := 0; i < ntx; i++ {
+			if prof.FailBoost && r.IntN(100) < 45 {
+				blk = append(blk, failTx(r))
+				continue
+			}
 			tx := TxSpec{Signer: pick(r, Users), Gas: 60_000_000, Fee: 1_000_000}
 			switch k := r.IntN(100); {
 			case k < 38:
@@ -307,5 +374,37 @@ func PlayTx(c *chainsim.Chain, t TxSpec) *chainsim.TxResult {
 	for i, m := range t.Msgs {
 		msgs[i] = Resolve(c, signer, m)
 	}
-	return c.DeliverSigned(msgs, chainsim.Fee(t.Gas, t.Fee), signer)
+	fee := chainsim.Fee(t.Gas, t.Fee)
+	if t.Tamper == "" {
+		return c.DeliverSigned(msgs, fee, signer)
+	}
+	saved := *signer
+	chain := chainsim.ChainID
+	switch t.Tamper {
+	case "seq+1":
+		signer.Seq++
+	case "seq-1":
+		if signer.Seq > 0 {
+			signer.Seq--
+		} else {
+			signer.Seq += 2
+		}
+	case "wrongacc":
+		signer.AccNum += 7
+	case "wrongchain":
+		chain = "other-chain"
+	case "tinygas":
+		fee = chainsim.Fee(500, t.Fee)
+	}
+	tx := c.SignTxChain(chain, msgs, fee, signer)
+	*signer = saved
+	switch t.Tamper {
+	case "badsig":
+		sig := append([]byte(nil), tx.Signatures[0].Signature...)
+		sig[len(sig)/2] ^= 0x20
+		tx.Signatures[0].Signature = sig
+	case "nosig":
+		tx.Signatures = nil
+	}
+	return c.Deliver(chainsim.TxBytes(tx))
 }
